@@ -27,7 +27,7 @@ LEVEL_TEXT = ('Complete sweep of the stated matrix-kind x size x wrapping x nois
 LEVEL_NOTE = 'Matrix entries of the generic kinds are seeded; sizes bounded by 64; conditioning of generic squares bounded by 1e3 (re-drawn otherwise).'
 ASSUMPTIONS = ['numpy.linalg.pinv is trusted', 'a measurement participates iff ||Q^T pinv(Q^T) 1 - 1||_inf <= 1e-8 (the alphabet has no borderline matrices)']
 
-KINDS = ['identity', 'scaled', 'prefix', 'ranges', 'gensquare', 'gentall', 'diff', 'ones_e1', 'identity_total', 'stacked']
+KINDS = ['identity', 'scaled', 'prefix', 'ranges', 'gensquare', 'gentall', 'diff', 'ones_e1', 'identity_total', 'stacked', 'hadamard', 'total_diff']
 WRAPS = ['dense', 'sparse', 'linop']
 SIZES = [1, 2, 3, 4, 8, 16, 32, 64]
 NOISES = [0.5, 1.0, 3.0]
@@ -69,6 +69,17 @@ def matrix(kind, n, rng):
         return np.vstack([np.eye(n), np.ones((1, n))])
     if kind == 'stacked':          # tall, equal column sums: [I; 3I]
         return np.vstack([np.eye(n), 3.0 * np.eye(n)])
+    if kind == 'hadamard':         # signed, full rank, all column sums but the first cancel exactly
+        if n & (n - 1) or n < 2:
+            return None
+        H = np.array([[1.0]])
+        while H.shape[0] < n:
+            H = np.block([[H, H], [H, -H]])
+        return H
+    if kind == 'total_diff':       # [1^T; first differences]: square, full rank, last column sums to zero
+        if n < 2:
+            return None
+        return np.vstack([np.ones((1, n)), (np.eye(n) - np.eye(n, k=1))[:-1]])
     if kind == 'diff':
         if n < 2:
             return None
@@ -230,7 +241,10 @@ def history_case(acc, warm, engines, totals):
     for step, (engine, total) in enumerate(zip(engines, totals)):
         N = 20.0 * (step + 2)
         xa, xb = np.array([0.5, 0.3, 0.2]) * N, np.array([0.1, 0.2, 0.3, 0.4]) * N
-        ms = [(np.eye(3), xa.copy(), 1.0, ('A',)), (np.tril(np.ones((4, 4))), np.tril(np.ones((4, 4))) @ xb, 2.0, ('B',))]
+        # same projections and shapes on every call, but different queries (nothing about a query may be remembered by shape)
+        Qa = [np.eye(3), 0.5 * np.eye(3), np.tril(np.ones((3, 3))), np.diag([1.0, 2.0, 4.0])][step % 4]
+        Qb = [np.tril(np.ones((4, 4))), np.eye(4), 3.0 * np.eye(4), np.triu(np.ones((4, 4)))][step % 4]
+        ms = [(Qa, Qa @ xa, 1.0, ('A',)), (Qb, Qb @ xb, 2.0, ('B',))]
         with M.quiet():
             model = eng.estimate(ms, total=total, engine=engine)
         want = total if total is not None else N
